@@ -113,6 +113,27 @@ def real_wigner(transition, node_id) -> tuple[str, str]:
     return req, rep
 
 
+def dummy_transition(topology):
+    """A transition on `topology` with hand-made states: every final state a massive spin-1 particle
+    (so that every alignment chain is non-trivial), spin-1 resonances and initial state."""
+    from qrules.particle import Particle
+    from qrules.quantum_numbers import InteractionProperties
+    from qrules.topology import FrozenTransition
+    from qrules.transition import State
+
+    states = {}
+    for eid in topology.edges:
+        p = Particle(name=f"x{eid}".replace("-", "m"), pid=9500 + eid, spin=1, mass=1.0 + 0.1 * (eid + 1), width=0.1)
+        states[eid] = State(p, 0.0)
+    return FrozenTransition(topology, states, {n: InteractionProperties() for n in topology.nodes})
+
+
+def real_oppsign(topology, state_id) -> tuple[str, list[str]]:
+    from ampform.helicity.align.axisangle import get_opposite_helicity_sign
+
+    return f"oppsign {state_id}", [f"sign {get_opposite_helicity_sign(topology, state_id)}"]
+
+
 def real_chain(transition, state_id) -> tuple[str, list[str]]:
     """(request, canonical reply) for the axis-angle alignment sum of one final state."""
     from sympy.physics.quantum.spin import WignerD
@@ -151,10 +172,11 @@ def run(chk: common.Check, rng, tier: str, reactions: dict) -> dict:
     from tools.search.C04_oracle import topology_facts  # independent classifier (python)
 
     lines, expect, labels = [], [], []
-    stats = {"topologies": 0, "wigner_calls": 0, "alignment_chains": 0, "by_final_states": {}, "relabelled": 0,
+    stats = {"topologies": 0, "wigner_calls": 0, "alignment_chains": 0, "opposite_signs": 0,
+             "spectators_recoiling_against_a_resonance": 0, "by_final_states": {}, "relabelled": 0,
              "with_decaying_opposite_child": 0, "both_children_decay": 0}
 
-    def add_topology(top, label):
+    def add_topology(top, label, with_chains=True):
         facts = topology_facts(top)
         lines.append(topo_line(top))
         expect.append(["ok " + str(len(top.edges))])
@@ -174,6 +196,28 @@ def run(chk: common.Check, rng, tier: str, reactions: dict) -> dict:
                                                                       "oracle": facts["decaying_opposite_helicity_child"]})
         expect.append([f"oppdecay {'true' if amp else 'false'}"])
         labels.append(label + " oppdecay")
+        # alignment: sign of every outer helicity and the rotation chain of every final state (all topologies,
+        # all relabellings: every choice of which child is the helicity state, spectators recoiling against a resonance)
+        for sid in [*sorted(top.incoming_edge_ids), *sorted(top.outgoing_edge_ids)]:
+            req, rep = real_oppsign(top, sid)
+            lines.append(req)
+            expect.append(rep)
+            labels.append(f"{label} {req}")
+            stats["opposite_signs"] += 1
+            e = top.edges[sid]
+            if e.originating_node_id is not None:
+                sib = [c for c in top.get_edge_ids_outgoing_from_node(e.originating_node_id) if c != sid]
+                if sib and top.edges[sib[0]].ending_node_id is not None:
+                    stats["spectators_recoiling_against_a_resonance"] += 1
+            chk.count(("oppsign", label, sid))
+        if with_chains:
+            dt = dummy_transition(top)
+            for sid in sorted(top.outgoing_edge_ids):
+                req, rep = real_chain(dt, sid)
+                lines.append(req)
+                expect.append(rep)
+                labels.append(f"{label} {req}")
+                stats["alignment_chains"] += 1
         stats["topologies"] += 1
         stats["by_final_states"][facts["n_final"]] = stats["by_final_states"].get(facts["n_final"], 0) + 1
         stats["with_decaying_opposite_child"] += int(facts["decaying_opposite_helicity_child"])
